@@ -215,6 +215,34 @@ def run(ctx):
     ctx.check(okp, "CONST", f"{cl.qualname} / CONST / reference pressure = round(multiplier, 4)", ctx.where(cl), "round(r['pressures'], 4)",
               "the reference pressure is not the body multiplier rounded to four decimals")
 
+    ctx.clause("a face's edge loop excludes the face id (first line only) and the trailing continuation / comment tokens, on every line layout")
+    gc = repo.func(f"{SE}.get_cells")
+    ctx.touch(gc)
+    sgc = sym.summarize(repo, gc.qualname)
+    idapp = [e for e in sgc.events if e.kind == "call" and isinstance(e.fname, tuple) and e.fname[1] == "append" and e.args
+             and e.args[0][0] == "idx" and e.args[0][2] == T.num(0) and e.args[0][1][0] == "call" and e.args[0][1][1] == ("m", "split")]
+    n_sl = 0
+    for e in sgc.events:
+        if e.kind != "assign" or not e.loops():
+            continue
+        sl = [x for x in T.subterms(e.value) if x[0] == "idx" and x[2][0] == "slice" and x[1][0] == "call" and x[1][1] == ("m", "split")]
+        if len(sl) != 1 or not any(x[0] == "lc" for x in T.subterms(e.value)):
+            continue
+        n_sl += 1
+        tokens = sl[0][1]
+        lo, hi = sl[0][2][1], sl[0][2][2]
+        first_line = any(set(a.conds()) == set(e.conds()) and a.args[0][1] == tokens for a in idapp)
+        closes = ("in", ("str", "*/"), T.idx(tokens, T.num(-1))) in e.conds()
+        want_lo = T.num(1) if first_line else T.num(0)
+        want_hi = T.num(-2) if closes else T.num(-1)
+        ok = (lo == want_lo or (not first_line and lo == T.NONE)) and hi == want_hi
+        ctx.check(ok, "FORM", f"{gc.qualname} / FORM / edge tokens = line[{T.show(want_lo)}:{T.show(want_hi)}] on a "
+                  f"{'first' if first_line else 'continuation'} line that {'closes' if closes else 'continues'} the face", ctx.where(gc, e.node),
+                  "face id consumed on the first line only; one trailing token for a continuation mark, two for the closing comment",
+                  f"`{gc.module.line(e.node.lineno)}` takes tokens [{T.show(lo)}:{T.show(hi)}] on a {'first' if first_line else 'continuation'} line that "
+                  f"{'closes' if closes else 'continues'} the face; expected [{T.show(want_lo)}:{T.show(want_hi)}] (the face id is not an edge reference)")
+    ctx.count("FORM", "face-line slices in get_cells", n_sl, 4)
+
     ctx.clause("vertices and edges that belong to no face are dropped")
     ap = [e for e in sc.events if e.kind == "call" and isinstance(e.fname, tuple) and e.fname[1] == "append" and e.loops()]
     ok = False
@@ -263,6 +291,9 @@ def _test_guards(test, k, len_guard):
 
 _P, _F = "forsys/surface_evolver.py", "forsys/frames.py"
 PINNED = [
+    ("single-line face reads its own id as an edge", _P, "                        current_edge = current_edge+splitted[1:-2]", "                        current_edge = current_edge+splitted[0:-2]"),
+    ("continuation line drops its first edge", _P, "                    current_edge = current_edge+splitted[0:-1]", "                    current_edge = current_edge+splitted[1:-1]"),
+    ("closing comment only partly stripped", _P, "                        current_edge = current_edge+splitted[0:-2]", "                        current_edge = current_edge+splitted[0:-1]"),
     ("F9 reintroduced: density token read without a length guard", _P, "                tokens = lines[i].split()\n                forces.append(float(tokens[4]) if len(tokens) > 4 and tokens[3] == \"density\" else 1)",
      "                forces.append(float(lines[i].split()[4]) if lines[i].split()[3] == \"density\" else 1)"),
     ("length guard evaluated after the access", _P, "float(tokens[4]) if len(tokens) > 4 and tokens[3] == \"density\" else 1", "float(tokens[4]) if tokens[3] == \"density\" and len(tokens) > 4 else 1"),
